@@ -52,6 +52,12 @@ func manageCanaryStatus(annotations map[string]string, params *Parameters, now t
 	result.IsFailed = eds.IsCanaryDeploymentFailed(params.Replicaset)
 	result.IsPaused, result.PausedReason = eds.IsCanaryDeploymentPaused(annotations, params.Replicaset)
 	result.IsUnpaused = eds.IsCanaryDeploymentUnpaused(annotations)
+	if result.IsUnpaused && !result.IsFailed {
+		// Unpausing is a manual action and takes precedence over pausing (never over failing),
+		// also when no canary pod exists yet to be evaluated in manageCanaryPodFailures.
+		result.IsPaused = false
+		result.PausedReason = ""
+	}
 
 	var (
 		metaNow = metav1.NewTime(now)
